@@ -431,7 +431,32 @@ func runC08(c *Ctx) []Obligation {
 		{Prop: P, ID: "overwrite.load-error", Fn: fnLoadOver,
 			Assume: []Lit{T(`^nonnil\(\(\*store/iavl\.MutableTree\)\.LoadVersion\(tree, targetVersion\)#1\)$`)}, Target: CallTo(`DeleteVersionsFrom|nodeDB\)\.Commit`), Why: "nothing is deleted when the target cannot be loaded"},
 	}
-	out := c.Rows(rows)
+	// what DeleteVersionsFrom(version) removes: every node, orphan and root record of versions >= version,
+	// so that "no later version remains readable" also after the database is reopened
+	dvf := "(*store/iavl.nodeDB).DeleteVersionsFrom"
+	ndbv := `var:ndb`
+	latest := `\(\*store/iavl\.nodeDB\)\.getLatestVersion\(` + ndbv + `\)`
+	rows2 := []Row{
+		{Prop: P, ID: "delete-from.roots-to-the-end", Fn: dvf,
+			Target: CallTo(`^\(\*store/iavl\.nodeDB\)\.traverseRange\(`).Except(`^\(\*store/iavl\.nodeDB\)\.traverseRange\(` + ndbv + `, \(\*store/iavl\.KeyFormat\)\.Key\(store/iavl\.rootKeyFormat, \[var:version\]\), \(\*store/iavl\.KeyFormat\)\.Key\(store/iavl\.rootKeyFormat, \[9223372036854775807\]\), closure:`),
+			Why: "root records are removed from the given version to the end of the root key space (the range is end-exclusive: stopping at the latest version would keep its root)"},
+		{Prop: P, ID: "delete-from.roots-deleted", Fn: dvf + "$2", Barrier: []string{`^invoke github\.com/tendermint/tm-db\.Batch\.Delete\(free:ndb\.batch, k\)`}, Target: TargetAnyReturn(), Why: "each root record in range is deleted"},
+		{Prop: P, ID: "delete-from.nodes-of-latest", Fn: dvf,
+			Target: CallTo(`deleteNodesFrom\(`).Except(`^\(\*store/iavl\.nodeDB\)\.deleteNodesFrom\(` + ndbv + `, var:version, \(\*store/iavl\.nodeDB\)\.getRoot\(` + ndbv + `, ` + latest + `\)#0\)$`),
+			Why: "nodes newer than the target are deleted starting from the latest root"},
+		{Prop: P, ID: "delete-from.all-three-sweeps", Fn: dvf, Assume: []Lit{F(`^lt\(` + latest + `, var:version\)$`)}, Barrier: []string{`^\(\*store/iavl\.nodeDB\)\.traverseRange\(`}, Target: Success(), Why: "a successful deletion has swept the root records"},
+		{Prop: P, ID: "delete-from.orphans-swept", Fn: dvf, Assume: []Lit{F(`^lt\(` + latest + `, var:version\)$`)}, Barrier: []string{`^\(\*store/iavl\.nodeDB\)\.traverseOrphans\(`}, Target: Success(), Why: "and the orphan records"},
+		{Prop: P, ID: "delete-from.nodes-error-aborts", Fn: dvf, Assume: []Lit{F(`^lt\(` + latest + `, var:version\)$`), T(`^nonnil\(\(\*store/iavl\.nodeDB\)\.deleteNodesFrom\(`)}, Target: Success(), Why: "a failed node deletion is reported"},
+		{Prop: P, ID: "delete-from.new-orphans-and-their-nodes", Fn: dvf + "$1", Assume: []Lit{F(`^lt\(var:fromVersion, free:version\)$`)},
+			Barrier: []string{`^invoke github\.com/tendermint/tm-db\.Batch\.Delete\(free:ndb\.batch, \(\*store/iavl\.nodeDB\)\.nodeKey\(free:ndb, hash\)\)`}, Target: TargetAnyReturn(), Why: "an orphan created at or after the target version is removed together with the node it refers to"},
+		{Prop: P, ID: "delete-from.old-orphans-keep-nodes", Fn: dvf + "$1", Assume: []Lit{T(`^lt\(var:fromVersion, free:version\)$`)},
+			Target: CallTo(`nodeKey\(|uncacheNode\(`), Why: "a node that existed before the target version is never deleted by a rollback"},
+		{Prop: P, ID: "delete-from.revived-orphans-unmarked", Fn: dvf + "$1", Assume: []Lit{T(`^lt\(var:fromVersion, free:version\)$`), F(`^lt\(var:toVersion, \(free:version - 1\)\)$`)},
+			Barrier: []string{`^invoke github\.com/tendermint/tm-db\.Batch\.Delete\(free:ndb\.batch, key\)`}, Target: TargetAnyReturn(), Why: "a node orphaned by a deleted version is live again: its orphan record goes"},
+		{Prop: P, ID: "delete-from.older-orphans-kept", Fn: dvf + "$1", Assume: []Lit{T(`^lt\(var:fromVersion, free:version\)$`), T(`^lt\(var:toVersion, \(free:version - 1\)\)$`)},
+			Target: CallTo(`Batch\.Delete\(`), Why: "orphan records of versions that survive are kept"},
+	}
+	out := c.Rows(append(rows, rows2...))
 	out = append(out, c.rollbackDeleteRange(P))
 	return out
 }
